@@ -636,12 +636,12 @@ func (l *LogRecord) decode(buf []byte, key string, valType uint8, hashSize int) 
 
 	l.Time, n = getVarInt(buf)
 	if n <= 0 {
-		return
+		return 0, false
 	}
 	buf = buf[n:]
 
 	if len(buf) < 2 {
-		return
+		return 0, false
 	}
 	tz := binary.BigEndian.Uint16(buf)
 	buf = buf[2:]
